@@ -77,11 +77,17 @@ PROPS = {
              'adjacent swap, sifting, reorder-to-order, reorder_to_pairs, reordering off and on, 8 hash seeds (thorough).',
              proof=False, bounded=['vlib.rtc.c07'], design_ref='DESIGN.md 7/C07'),
     'C08': P('other',
-             'Per-node count = in-edges + live Function objects is checked by run-time contracts over random and enumerated dd.autoref '
-             'histories (handles from every route, drops in any order, collections, reorderings, dynamic reordering on/off) with a final '
-             'all-dropped check (only the terminal left, BDD.__del__ passes). The manager-level half (RC invariant of find_or_add, '
-             'incref/decref) is proved under C06. CPython runs __del__ exactly once per handle: assumed.',
-             proof=False, bounded=['vlib.rtc.c08'], tb=['CPython finaliser semantics'], design_ref='DESIGN.md 7/C08'),
+             'Proved (per-operation ledger over the ghost external count of the wrapped manager): Function.__init__ takes exactly one '
+             'external reference (none when it raises), __del__ gives back exactly one and is idempotent, and every handle-returning '
+             'operation under contract (_wrap, _add_int, true/false, var, ite, apply per symbol, quantify/forall/exist, succ, low/high, '
+             'Function._apply and the operators ~ & | implies equiv) changes the external counts by exactly +1 per returned handle on '
+             'top of the wrapped manager\'s own contract, with the state unchanged on exceptional exits; together with the RC invariant '
+             '(C06) this is "count = in-edges + live handles". Preconditions: handles passed in are live handles (kind invariant). '
+             'ASSUMED: CPython runs __del__ exactly once when the last reference to a handle disappears (temporaries net 0). Whole '
+             'histories (drops in any order, collections, reorderings, final all-dropped check with BDD.__del__) are decided by the '
+             'bounded stand-in.',
+             bounded=['vlib.rtc.c08'], tb=['CPython finaliser semantics', 'autoref let/cube/add_expr/copy/load/dump, image/preimage wrappers, __le__/__lt__: bounded only'],
+             design_ref='DESIGN.md 7/C08'),
     'C09': P('other',
              'Proved: _request_reordering raises the signal only when requests are enabled, state unchanged; _ReorderingContext '
              '__init__/__enter__/__exit__ (flag saved and restored on every exit, the signal swallowed only at nesting depth 0); the '
@@ -125,8 +131,10 @@ PROPS = {
              '47 kinds of rejected call after every step of histories, then continued use.',
              bounded=['vlib.rtc.c17'], design_ref='DESIGN.md 7/C17'),
     'C18': P('other',
-             'BDD.succ is proved to return the stored fork (W9 read back gives u == negated(ite(var, high, low))). Function properties, '
-             'descendants, sizes, to_nx and DOT exports are checked by run-time contracts (graph exports parsed back and evaluated).',
+             'Proved: BDD.succ returns the stored fork; dd.autoref.BDD.succ, Function.low/high/var/level/negated/ref return what the node '
+             'table stores, and expanding on the node\'s variable with high/low and applying the sign reproduces u for an arbitrary '
+             'assignment (W9 read back), with the handles counted. descendants, sizes, to_nx and DOT exports are checked by run-time '
+             'contracts (graph exports parsed back and evaluated).',
              bounded=['vlib.rtc.c18'], design_ref='DESIGN.md 7/C18'),
     'C19': P('other',
              'The C extensions cannot be built here (no CUDD/Sylvan/BuDDy). The .pyx sources are parsed on every run with Cython\'s own '
